@@ -394,3 +394,17 @@ for _n in ("c12_abs_ffi_sym", "c12_abs_ffi32_sym", "c12_abs_sfi_sym", "c12_rel_f
 for _n in ("c03_ffi_cubic_grid", "c03_sfi_quadratic_grid"):
     HARNESSES[_n]["cap"] = 900
     HARNESSES[_n]["thorough_cap"] = 1800
+
+
+# ---------------------------------------------------------------- quick-tier trimming (measured on a loaded 16-core host)
+# a quick check should finish in about ten minutes: harnesses that need 15-30 min or do not terminate
+# within their cap move to the thorough tier
+for _n in ("c16_vec_process", "c16_vec_process_partial", "c16_vec_partial", "c16_vec_into", "c16_process_ffo"):
+    HARNESSES[_n]["tier"] = "thorough"
+    HARNESSES[_n]["thorough_cap"] = 2400
+# FFT accounting with a block larger than the chunk: refuted quickly when wrong (seeded C05a/C07b: 164 s),
+# not proved within 20 min on the unchanged tree. Quick tier: bounded attempt (inconclusive on timeout).
+for _n in ("c07_fti_2_3_1_1", "c07_fto_2_3_1_1"):
+    HARNESSES[_n]["cap"] = 420
+    HARNESSES[_n]["thorough_cap"] = 3600
+HARNESSES["c07_fti_2_3_3_1"]["cap"] = 900
